@@ -391,8 +391,16 @@ fn mode_a(program: &Program, env: &WorkerEnv, only: &Option<(u64, Pos)>) -> (Ver
             v
         }
     };
+    // the unhalted run is cut by the step budget. When the cut falls inside the nested run of a `subrun`, a halted run
+    // whose nested run stops early never reaches the budget there: that last, artificially ended instruction is not
+    // a boundary of the program
+    let cut_in_subrun = sim::with_core(|c| c.budget_hit) || dry.log.iter().rev().find_map(|e| if let Event::End { depth: 0, res, .. } = e { Some(res == "Crash") } else { None }).unwrap_or(false);
+    let last_is_subrun = dry_sigs.iter().rev().find_map(|s| if let Sig::Start(c, _, _, false) = s { Some(c == "subrun") } else { None }).unwrap_or(false);
     for (k, pos) in positions {
         if k >= total {
+            continue;
+        }
+        if k + 1 == total && cut_in_subrun && last_is_subrun {
             continue;
         }
         let halted = match run_once(program, env, Some((k, pos.clone())), DRY_BUDGET) {
@@ -675,7 +683,13 @@ fn gen_program(rng: &mut Rng, looping: bool) -> Program {
         }
         Program::Scripted(c)
     } else {
-        Program::Sdk(gen::generate_program(rng, &gen::GenOpts { functions: true, faults: true, looping, halt_cmd: true, ..Default::default() }))
+        let mut p = gen::generate_program(rng, &gen::GenOpts { functions: true, faults: true, looping, halt_cmd: true, ..Default::default() });
+        if rng.chance(1, 3) {
+            // a command that runs a nested script with the same halt flag: once the flag is up neither run goes on
+            let at = rng.usize(p.main.len() + 1);
+            p.main.insert(at, gen::Stmt::Raw(format!("subrun {}", 2 + rng.usize(3))));
+        }
+        Program::Sdk(p)
     }
 }
 
